@@ -56,6 +56,9 @@ pub enum Strategy {
     /// Starvation: threads whose role is the victim (0 = hashing thread, 1 = main/feeder, 2 = workers) run
     /// only when no other thread is enabled; uniform choice inside the preferred set
     Starve(u8),
+    /// Hold one worker: the first worker that reaches the lock of the result sink is run only when no other thread is
+    /// enabled, so every other frame overtakes its frame (the out-of-order distance grows with the stream length)
+    HoldOne,
 }
 
 /// How a scheduled run ended abnormally.
@@ -92,6 +95,8 @@ pub struct State {
     /// enabling condition (used to tell a real dead-lock from a stall the serialisation itself caused)
     pub free_run: bool,
     pub monitor_stop: bool,
+    /// the worker held back under `Strategy::HoldOne`
+    pub held: Option<ThreadId>,
 }
 
 pub struct Sched {
@@ -134,6 +139,15 @@ impl State {
             Strategy::Pct => {
                 let best = cands.iter().max_by_key(|c| (c.2, std::cmp::Reverse(c.0))).unwrap();
                 Some(best.1)
+            }
+            Strategy::HoldOne => {
+                if self.held.is_none() {
+                    self.held = cands.iter().map(|c| c.1).find(|id| self.threads.get(id).map_or(false, |t| t.role == "Worker" && matches!(t.op, Some((Op::Lock, Obj::ResultSink(_))))));
+                }
+                let preferred: Vec<ThreadId> = cands.iter().map(|c| c.1).filter(|id| Some(*id) != self.held).collect();
+                let pool: Vec<ThreadId> = if preferred.is_empty() { cands.iter().map(|c| c.1).collect() } else { preferred };
+                let k = (self.rnd() % pool.len() as u64) as usize;
+                Some(pool[k])
             }
             Strategy::Starve(victim) => {
                 let vrole = ["Hasher", "main", "Worker"][(victim % 3) as usize];
@@ -205,6 +219,7 @@ impl Sched {
             on_abort: None,
             free_run: false,
             monitor_stop: false,
+            held: None,
         };
         Arc::new(Self { st: Mutex::new(st), cv: Condvar::new() })
     }
